@@ -5,6 +5,9 @@ prescribe, printed as one `spec` line next to the model's own answer.
 import SqModel.Model.Table
 import SqModel.Spec.Crc
 import SqModel.Spec.Squawk
+import SqModel.Spec.Altitude
+import SqModel.Spec.Ident
+import SqModel.Spec.Velocity
 
 namespace Sq.Spec
 
@@ -13,10 +16,33 @@ def optN : Option Nat → String
   | none => "-"
 
 /-- what the specifications say about one frame (a nibble vector of length 14 or 28) -/
-def frameSpec (m : Msg) : String :=
+def optI : Option Int → String
+  | some v => toString v
+  | none => "-"
+
+def frameSpec (env : Env) (m : Msg) : String :=
   let d := df m
+  let tc := field m 33 37
+  let st := field m 38 40
   "spec df=" ++ toString d ++ " addr=" ++ optN (addressOf m) ++ " parity=" ++ (if parityOK m then "1" else "0")
    ++ " squawk=" ++ (if d = 5 ∨ d = 21 then toString (squawkSpec (field m 20 32)) else "-")
+   ++ " alt=" ++ (
+     if d = 4 ∨ d = 20 then
+       (if mBit (field m 20 32) = 1 then "*" else optN (altSpec13 (field m 20 32)))
+     else if d = 17 ∧ 9 ≤ field m 33 37 ∧ field m 33 37 ≤ 18 then optN (altSpec12 (field m 41 52))
+     else "-")
+   ++ " q=" ++ (if d = 4 ∨ d = 20 then toString ((acBits12 (ac12of13 (field m 20 32))).q)
+               else if d = 17 then toString ((acBits12 (field m 41 52)).q) else "-")
+   ++ " callsign=" ++ (if (d = 17 ∧ 1 ≤ tc ∧ tc ≤ 4) ∨ ((d = 20 ∨ d = 21) ∧ field m 33 40 = 0x20)
+                       then "\"" ++ String.ofList (callsignSpec m) ++ "\"" else "-")
+   ++ " cat=" ++ (if d = 17 ∧ 1 ≤ tc ∧ tc ≤ 4 then toString tc ++ "/" ++ toString st else "-")
+   ++ " wake=" ++ (match wakeSpec tc st with | some c => toString c.toNat | none => "-")
+   ++ (if d = 17 ∧ tc = 19 ∧ (st = 1 ∨ st = 2) then
+         let v := velFields m
+         let tg := velocitySpec env.atan2deg v (if st = 2 then 4 else 1)
+         " track=" ++ optN tg.1 ++ " gs=" ++ optN tg.2 ++ " vrate=" ++ optI (vrateSpec v)
+           ++ " vew=" ++ toString (vew v) ++ " vns=" ++ toString (vns v)
+       else " track=- gs=- vrate=-")
 
 def hexDigitC (n : Nat) : Char := if n < 10 then Char.ofNat (48 + n) else Char.ofNat (55 + n)
 
